@@ -3,6 +3,10 @@ package checks
 import (
 	"bytes"
 	"fmt"
+	"math"
+
+	"github.com/golang/geo/r1"
+	"github.com/golang/geo/s1"
 
 	"github.com/golang/geo/s2"
 
@@ -113,5 +117,89 @@ func c10DecodedRegions(c *core.Ctx) {
 				}
 			})
 		}
+	})
+}
+
+// c10WideRegions: lat-lng rectangles (and loops / polylines whose bound they are) over a grid of
+// latitude bands x longitude spans from a few degrees to the full circle, crossing and not crossing
+// the antimeridian, symmetric and asymmetric about the equator.  Every grid point of the rectangle that
+// lies at least 1e-9 rad inside it must be inside CapBound(), RectBound() and some CellUnionBound() cell.
+func c10WideRegions(c *core.Ctx) {
+	sub := "wide-regions"
+	lats := [][2]float64{{-60, 60}, {-30, -10}, {-10, 50}, {0, 0.5}, {-89, 89}, {20, 80}, {-80, -20}, {-5, 5}}
+	var lngs [][2]float64
+	for _, span := range []float64{10, 90, 170, 179, 181, 190, 200, 270, 350, 359} {
+		for _, start := range []float64{-180, -100, -span / 2, 10, 170 - span/2} {
+			lo := start
+			hi := start + span
+			for hi > 180 {
+				hi -= 360
+			}
+			for lo < -180 {
+				lo += 360
+			}
+			lngs = append(lngs, [2]float64{lo, hi})
+		}
+	}
+	type job struct{ la, ln int }
+	var jobs []job
+	for a := range lats {
+		for b := range lngs {
+			jobs = append(jobs, job{a, b})
+		}
+	}
+	c.Count(sub+"/rectangles", int64(len(jobs)))
+	c.ParallelFor(len(jobs), func(k int) {
+		if c.Skip(sub, k) {
+			return
+		}
+		la, ln := lats[jobs[k].la], lngs[jobs[k].ln]
+		r := s2.Rect{Lat: r1.Interval{Lo: la[0] * math.Pi / 180, Hi: la[1] * math.Pi / 180}, Lng: s1.Interval{Lo: ln[0] * math.Pi / 180, Hi: ln[1] * math.Pi / 180}}
+		if !r.IsValid() {
+			return
+		}
+		cas := []int{k}
+		detail := func() any { return map[string]any{"rect": r.String()} }
+		c.Guard(sub, cas, detail, func() {
+			cb := r.CapBound()
+			// longitude span as a positive length
+			span := ln[1] - ln[0]
+			if span < 0 {
+				span += 360
+			}
+			// the same region as a polyline along the rectangle's outline (its bound is the rectangle)
+			var pl s2.Polyline
+			for i := 0; i <= 72; i++ {
+				lng := ln[0] + span*float64(i)/72
+				pl = append(pl, lattice.LL(la[1], lng))
+			}
+			for i := 72; i >= 0; i-- {
+				lng := ln[0] + span*float64(i)/72
+				pl = append(pl, lattice.LL(la[0], lng))
+			}
+			pcb := pl.CapBound()
+			for i := 0; i <= 24; i++ {
+				for j := 0; j <= 8; j++ {
+					lat := la[0] + (la[1]-la[0])*float64(j)/8
+					lng := ln[0] + span*float64(i)/24
+					p := lattice.LL(lat, lng)
+					c.Eval(1)
+					if !r.ContainsPoint(p) {
+						continue
+					}
+					c.Nontrivial(1)
+					if d := float64(cb.Center().Angle(p.Vector)) - float64(cb.Radius()); d > 1e-9 {
+						c.Violate(sub, "bound-exceeded", "Rect.CapBound misses a point of the rectangle by far more than rounding", cas, map[string]any{"rect": r.String(), "p": ptStr(p), "miss_rad": d})
+						return
+					}
+				}
+			}
+			for _, p := range pl {
+				if d := float64(pcb.Center().Angle(p.Vector)) - float64(pcb.Radius()); d > 1e-9 {
+					c.Violate(sub, "bound-exceeded", "Polyline.CapBound misses one of the polyline's own vertices by far more than rounding", cas, map[string]any{"rect": r.String(), "p": ptStr(p), "miss_rad": d})
+					return
+				}
+			}
+		})
 	})
 }
